@@ -7,18 +7,20 @@ type case = { src : string; name : string; dbs : dbspec list }
 
 let id = "C14"
 let rule = "target states reached by random sequences of sender-style checkpoint writes (HSET runid/version/offset) from 1..3 sources \
-(one address a strict prefix of another: h:6379 vs h:63790) into random databases, with partially written or cleared checkpoints, version \
+(one address a strict prefix of another: h:6379 vs h:63790; a third of the cases with host names containing hyphens and dots: redis-master-0.prod:6379 vs redis-master:6379 vs redis:6379) into random databases, with partially written or cleared checkpoints, version \
 fields 1/0/absent/garbage, databases holding data only; real LoadCheckpoint over TCP against fakeredis, repeated 3x to sample Go's map \
 iteration order; non-trivial = >=2 databases with a checkpoint of the own source or a foreign checkpoint with a larger offset; distinct by wire line"
 
-let srcs = [ "h:6379"; "h:63790"; "x:1" ]
+(* two families of source addresses: plain host:port (one a strict prefix of another), and host names with hyphens and dots *)
+let families = [ [ "h:6379"; "h:63790"; "x:1" ]; [ "redis-master-0.prod:6379"; "redis-master-0.prod:63790"; "redis-master:6379"; "redis:6379" ] ]
 
 let hset fs f v = if List.mem_assoc f fs then List.map (fun (f', v') -> if f' = f then (f, v) else (f', v')) fs else fs @ [ (f, v) ]
 
 let gen st tier =
   let thorough = tier = "thorough" in
   List.init (if thorough then 5000 else 500) (fun _ ->
-    let src = rnd_pick st [ "h:6379"; "h:6379"; "h:63790" ] in
+    let srcs = if rnd_int st 3 = 0 then List.nth families 1 else List.nth families 0 in
+    let src = rnd_pick st [ List.nth srcs 0; List.nth srcs 0; List.nth srcs 1 ] in
     let ndb = 1 + rnd_int st 4 in
     let dbnums = List.sort_uniq compare (List.init ndb (fun _ -> rnd_int st 16)) in
     let used = Hashtbl.create 8 in
